@@ -416,8 +416,12 @@ def teleport(
             and isinstance(state.grid[position], Telepod)
             and state.grid[position].color == telepod.color
         ]
-        i = rng.choice(len(positions))
-        state.agent.position = positions[i]
+        try:
+            i = rng.choice(len(positions))
+        except ValueError:
+            pass
+        else:
+            state.agent.position = positions[i]
 
 
 def factory(name: str, **kwargs) -> TransitionFunction:
